@@ -51,8 +51,34 @@ fn units(thorough: bool) -> Vec<Unit> {
     out
 }
 
-fn one<T: Evaluate>(pw: &Piecewise<T>, ends: &[f64], x: f64, kind: &str, cx: &mut Cx) -> Verdict {
-    let got = guard(|| pw.evaluate(x));
+/// `pw.evaluate(x)` in method-call syntax on the concrete type, the way a user of the library writes it (inside generic code the
+/// call always resolves to the trait method; on a concrete type an inherent method of the same name would take precedence)
+trait ConcreteEval {
+    fn eval_as_written(&self, x: f64) -> f64;
+}
+macro_rules! concrete_eval { ($($t:ty),*) => {$(
+    impl ConcreteEval for Piecewise<$t> {
+        #[allow(unstable_name_collisions)]
+        fn eval_as_written(&self, x: f64) -> f64 {
+            let pw: &Piecewise<$t> = self;
+            pw.evaluate(x)
+        }
+    }
+)*}; }
+concrete_eval!(Probe, Poly0, Poly1, Poly2, Poly3, Poly5, Poly8, Log<Poly0>, Log<Poly8>, IntOfLog<Poly0>, IntOfLogPoly4);
+
+fn one<T: Evaluate>(pw: &Piecewise<T>, ends: &[f64], x: f64, kind: &str, cx: &mut Cx) -> Verdict
+where
+    Piecewise<T>: ConcreteEval,
+{
+    let got = guard(|| pw.eval_as_written(x));
+    if let Ok(g) = &got {
+        // ... and through the trait, fully qualified: the two must agree
+        let t = guard(|| <Piecewise<T> as Evaluate>::evaluate(pw, x));
+        if t.as_ref().map_or(true, |t| t.to_bits() != g.to_bits()) {
+            return Err(Fail::new("pw.evaluate(x) on the concrete type and Evaluate::evaluate(&pw, x) disagree", json!({"ends": fjs(ends), "piece_type": kind, "x": fj(x), "method_call": fj(*g), "trait_call": format!("{:?}", t)})));
+        }
+    }
     cx.evals(1);
     let i = ref_index(ends, x);
     let want = pw.segments[i].evaluate(x);
@@ -77,8 +103,8 @@ pub fn check(thorough: bool, _seed: u64) -> Check {
     let body: Body = Box::new(move |unit, cx| {
         let u = &u2[unit];
         // kinds 0,1 and 4,5 for every shape; 2,3 (pieces that need positive arguments to be told apart) for positive shapes
-        let kinds = if u.positive { 6 } else { 4 };
-        let kind = { let k = cx.choose(kinds); if u.positive { k } else { [0, 1, 4, 5][k] } };
+        let kinds = if u.positive { 7 } else { 5 };
+        let kind = { let k = cx.choose(kinds); if u.positive { k } else { [0, 1, 4, 5, 6][k] } };
         let x = *cx.pick(&u.alpha);
         let ends = &u.ends;
         let k = ends.len();
@@ -122,7 +148,10 @@ pub fn check(thorough: bool, _seed: u64) -> Check {
             // log-family piece types whose values can be told apart at any argument, negative ones included
             // (Log<Poly0> is a constant, IntOfLog<Poly0> is k + c*v)
             4 => one(&Piecewise { segments: ends.iter().enumerate().map(|(i, &e)| Segment { end: e, poly: Log(Poly0(10.0 + i as f64)) }).collect() }, ends, x, "Log<Poly0>", cx),
-            _ => one(&Piecewise { segments: ends.iter().enumerate().map(|(i, &e)| Segment { end: e, poly: IntOfLog { k: 100.0 * (i as f64 + 1.0), poly: Poly0(0.5 + i as f64) } }).collect() }, ends, x, "IntOfLog<Poly0>", cx),
+            5 => one(&Piecewise { segments: ends.iter().enumerate().map(|(i, &e)| Segment { end: e, poly: IntOfLog { k: 100.0 * (i as f64 + 1.0), poly: Poly0(0.5 + i as f64) } }).collect() }, ends, x, "IntOfLog<Poly0>", cx),
+            // pieces whose own value is NaN at some non-NaN argument (a flat Poly1 at +-inf: c + 0*inf), alternating with sloped ones:
+            // the selected piece's NaN is the answer, whatever another piece would give there
+            _ => one(&Piecewise { segments: ends.iter().enumerate().map(|(i, &e)| Segment { end: e, poly: Poly1([10.0 * (i as f64 + 1.0), if i % 2 == 0 { 0.0 } else { 1.0 }]) }).collect() }, ends, x, "Poly1 (flat / sloped alternately)", cx),
         }
     });
     let ph = Phase {
@@ -144,11 +173,14 @@ pub fn check(thorough: bool, _seed: u64) -> Check {
                       else {"all non-decreasing end lists of length 1..5 over {1..5} and of length 1..4 over the nasty set {-MAX,-1,-2^-1022,-0.0,+0.0,5e-324,1,succ(1),1e300,MAX,+inf}"},
             "every_length": "1..n for every n up to 300 (600 thorough), plain and with the middle end duplicated", "long_lists": "1..n for n=6..17 (40 thorough) and for the threshold sizes (8..257 quick, 7..1025 thorough), plain and with duplicate runs; lists over {-1e6,-1,1e-7,1e6,1e7}, {1,1+1e-10,1+2e-10,1+1e-9}, {1e5,1e5(1+1e-12),1e6,3e6,1e7}",
             "queries": "order-complete alphabet A(ends): -inf,-MAX, below first end, each end and both one-ulp neighbours, >=2 interior points per cell, above last end, MAX, +inf",
-            "piece_types": "Probe (identifies piece and argument), Poly1, Log<Poly0>, IntOfLog<Poly0> for every shape; Poly3, Log<Poly8> for positive ends"
+            "piece_types": "Probe (identifies piece and argument), Poly1, Log<Poly0>, IntOfLog<Poly0>, Poly1 alternately flat and sloped (NaN at infinite arguments) for every shape; Poly3, Log<Poly8> for positive ends"
         }),
     };
     // every number of pieces for piece types of every size (thresholds in segments and in bytes are crossed for each type)
-    fn sized<T: Nums + Evaluate>(n: usize, stride: usize, name: &str, cx: &mut Cx) -> Verdict {
+    fn sized<T: Nums + Evaluate>(n: usize, stride: usize, name: &str, cx: &mut Cx) -> Verdict
+    where
+        Piecewise<T>: ConcreteEval,
+    {
         let ends: Vec<f64> = (0..n).map(|i| 0.5 + i as f64 * 0.25).collect();
         let pw: Piecewise<T> = Piecewise {
             segments: ends.iter().enumerate().map(|(i, &e)| Segment { end: e, poly: T::from_nums(&(0..T::N).map(|l| 1.0 + (i % 251) as f64 + 0.125 * l as f64).collect::<Vec<_>>()) }).collect(),
